@@ -106,6 +106,7 @@ struct Task {
     bool preemptible;
     long countdown;
     u64 ticks_in_quantum;
+    const u8* watch_p; size_t watch_n; u64 watch_hits; bool watch_armed;   // caller's key buffer during polyseed_keygen (per task: several may derive keys at once)
     int locks_held;                 // locks of the library held by this task (accesses under a lock are synchronised)
     bool blocked;                   // yielded because a lock of the library is held by another task
     u64 edges_call;                 // edges inside the current API call
